@@ -230,6 +230,12 @@ def run_bash(desc):
                 if (w and v == R.MUST) or (not w and v == R.MUSTNOT):
                     out.stats['bash_quirk_reference_sides_with_wcmatch'] += 1
                     continue
+                if v == R.EITHER and not A.neg_exact(seq):
+                    # `!(...)` followed by a wildcard or nested in another negation: the statement leaves it open (wcmatch's
+                    # look-ahead reading and Bash's differ there, e.g. `!(b)*` vs 'b'); counted, not judged
+                    out.either += 1
+                    out.stats['bash_differs_outside_the_negation_fragment'] += 1
+                    continue
                 ids = K.seg_classes(seq, nm, True, False, False, w, R.MUSTNOT if w else R.MUST, text)
                 hit = sorted(ids & set(armed))
                 case = {'mode': 'fn', 'ast': A.to_json(seq), 'pattern': text, 'cfg': {'dot': True, 'ext': True}, 'name': nm, 'verdict': v,
